@@ -685,6 +685,11 @@ func (sema *ExprSemanticsChecker) checkArrayDeref(n *ArrayDerefNode) ExprType {
 				found = true
 				break
 			}
+			if _, ok := t.(AnyType); ok {
+				// A property of unknown type may hold an object
+				found = true
+				break
+			}
 		}
 		if !found {
 			sema.errorf(n, "object type %q cannot be filtered by object filtering `.*` since it has no object element", ty.String())
